@@ -89,6 +89,8 @@ func NewHTTPS2HTTPSPlugin(_ PluginContext, options v1.ClientPluginOptions) (Plug
 				return
 			}
 		}
+		// see pkg/util/vhost/http.go: request body and response flow at the same time
+		_ = http.NewResponseController(w).EnableFullDuplex()
 		rp.ServeHTTP(w, r)
 	})
 
